@@ -61,31 +61,31 @@ TEXT = {
         "technique": "Verus safety obligations on extracted index/selector functions + complete Kani proofs of the extracted calibration closures",
         "design_ref": "DESIGN.md §4 C09",
         "level_text": "Only the integer and Option panic sites of event assembly are decided: both calibration closures (cut out of try_from_banks; all i16 samples and baselines), contiguous_ranges / range_to_len / wire<->pad-column functions, TpcWirePosition::try_new (unreachable!() unreachable, index < 256), TpcPadPosition::new (unwraps), and -- as postconditions of the decoders -- the invariants behind board_id().unwrap() and waveform_at().unwrap().",
-        "level_note": _COMMON_NOTE + " NOT decided: the floating-point pipeline (deconvolution, clustering, fitting, vertexing) and the generic, HashMap-using body of try_from_banks itself; the call sites of the unwraps are not verified, only the callee-side invariants.",
+        "level_note": _COMMON_NOTE + " Bounded stand-in: c09_event feeds ~480 extreme-but-valid events (waveform lengths around the calibration delay, i16 extremes, full ring, sent/over-threshold masks that differ) through try_from_banks, avalanches and vertex. NOT decided by proof: the floating-point pipeline (deconvolution, clustering, fitting, vertexing) and the generic, HashMap-using body of try_from_banks itself; the call sites of the unwraps are not verified, only the callee-side invariants.",
     },
     "C10": {
         "technique": "complete Kani proof of the two extracted calibration closures",
         "design_ref": "DESIGN.md §4 C10",
         "level_text": "Only the calibration expression is decided: for every i16 sample and baseline and gains {3.0, -0.5, 1.0} both closures of try_from_banks return (sample - baseline) * gain exactly.",
-        "level_note": _COMMON_NOTE + " NOT decided: slot placement, skip(delay), duplicate/mismatch rejection, the ignored-bank list, timestamp. Gain is sampled (3 values), samples and baselines are exhaustive.",
+        "level_note": _COMMON_NOTE + " Bounded stand-in: c10_table runs one representative per rejection clause of the statement (with its accepted neighbour, multi-chunk pad packets misnamed at each position) through the real try_from_banks and checks the TRG timestamp. NOT decided: slot placement on wires/pads, skip(delay). Gain is sampled (3 values), samples and baselines are exhaustive.",
     },
     "C13": {
         "technique": "Verus contract on the real contiguous_ranges (maximal cyclic runs, seam adjacency) + complete Kani proof of the induction-matrix entry",
         "design_ref": "DESIGN.md §4 C13",
         "level_text": "Index layer only: contiguous_ranges is proved to return blocks that cover exactly the occupied wires and in which every two adjacent occupied wires (including 255/0) are adjacent unknowns -- for every occupancy except the full ring, where the obligation fails (recorded known finding); the induction coefficient is proved to depend on the distance only; wire<->pad-column arithmetic is proved.",
-        "level_note": _COMMON_NOTE + " NOT decided: that the numeric kernels (faer Cholesky, ls_deconvolution, matching) depend only on block-ordered inputs (A-NUMERIC-LOCAL), the z-mirror clause, bit-identity of floating-point results.",
+        "level_note": _COMMON_NOTE + " Bounded stand-ins: c13_dims (ring index helpers, verbatim text, against the cyclic-range specification) and c13_sym (rotation by whole pad columns and z mirror of four synthetic events through the public API, bit-exact). NOT decided by proof: that the numeric kernels (faer Cholesky, ls_deconvolution, matching) depend only on block-ordered inputs (A-NUMERIC-LOCAL), the z-mirror clause.",
     },
     "C19": {
         "technique": "Verus contract on the scan-step statements cut out of both binaries",
         "design_ref": "DESIGN.md §4 C19",
         "level_text": "Only the time arithmetic is decided: the four statements of the scan closure (both binaries) are proved to add the 32-bit-wrapped difference to the previous decodable event, 0 for the first and for undecodable events.",
-        "level_note": _COMMON_NOTE + " NOT decided: row count and order, thread-count independence, file sorting and refusal cases, column contents. cumulative < 2^63 assumed.",
+        "level_note": _COMMON_NOTE + " Bounded stand-ins (not proofs): c19_sort runs sort_run_files on every (run, timestamp) assignment to <=4 files in every order; c19_csv runs the real alpha-g-trg-scalers and alpha-g-vertices on synthetic MIDAS files (8 timestamp scenarios incl. undecodable events, 32-bit wrap, gaps >= 2^31; 1 and 2 files in both command-line orders) and checks rows, order and trg_time. NOT decided: thread-count independence, vertex/scaler column contents beyond trg_time. cumulative < 2^63 assumed.",
     },
     "C20": {
         "technique": "Verus contract on the real chronobox_time + hardware-clock-model lemmas; bounded Kani check of the extracted row-split expression",
         "design_ref": "DESIGN.md §4 C20",
         "level_text": "chronobox_time is proved to return a time exactly when both markers are present, consecutive, of alternating top bit and on the right side of the timestamp, and then timestamp + ((counter+1)/2)*2^24; lemmas show that for the hardware model this is the true tick count (edge bit cleared) and that a timestamp on the wrong side of a marker never gets a time.",
-        "level_note": _COMMON_NOTE + " NOT decided: concatenation across banks/events/files, grouping by board, the fail-without-CSV clauses, the counter-0 search. The row split is checked by Kani on chunks of <=3 entries (bounded). The f64 conversion of the tick count is opaque.",
+        "level_note": _COMMON_NOTE + " The row split is checked by Kani on chunks of <=3 entries (bounded); c20_csv runs the real binary on hardware-model streams of 9 half wraps cut into irregular banks over two files (bounded). NOT decided: the fail-without-CSV clauses, multiple boards. The f64 conversion of the tick count is opaque in the proof.",
     },
     "C06": {
         "technique": "Verus postcondition accept <=> trg_ok(bytes) + complete Kani proof over [u8;80]",
